@@ -38,6 +38,11 @@ STDLIB = {
 }
 
 
+PURE_STR_METHODS = {'encode', 'decode', 'lower', 'upper', 'split', 'rsplit', 'strip', 'lstrip', 'rstrip', 'isspace', 'isdigit',
+                    'isalpha', 'isalnum', 'startswith', 'endswith', 'find', 'rfind', 'count', 'replace', 'partition',
+                    'rpartition', 'splitlines', 'title', 'capitalize', 'index', 'rindex'}
+
+
 class Folder:
     def __init__(self, module, platform_has=('O_NOFOLLOW',)):
         self.module = module
@@ -214,9 +219,15 @@ class Folder:
             if fn.endswith('.join') and isinstance(e.func, ast.Attribute):
                 sep = self.fold(e.func.value, upto, env)
                 return sep.join(args[0])
-            if isinstance(e.func, ast.Attribute) and e.func.attr in ('encode', 'decode', 'lower', 'upper'):
+            if isinstance(e.func, ast.Attribute) and e.func.attr in PURE_STR_METHODS:
                 base = self.fold(e.func.value, upto, env)
-                return getattr(base, e.func.attr)(*args)
+                if not isinstance(base, (str, bytes)):
+                    raise Unknown('method %s of a non-string constant' % e.func.attr)
+                try:
+                    r = getattr(base, e.func.attr)(*args)
+                except Exception as ex:
+                    raise Unknown('constant call %s: %s' % (fn, ex))
+                return tuple(r) if isinstance(r, list) else r
             raise Unknown('call %s' % fn)
         if isinstance(e, ast.IfExp):
             raise Unknown('conditional expression')
